@@ -80,7 +80,7 @@ Definition jv_batfiles (b : batfiles) : jv :=
 
 (* exact value of now/power*3600 of the reported battery (harness: float truncation hazard) *)
 Definition secs_exact (b : kbat) : jv :=
-  match spec_alt (kb_now b), spec_alt (kb_power b) with
+  match spec_salt (kb_now b), spec_salt (kb_power b) with
   | Some n, Some w => if w =? 0 then jnone else jq (inject_Z (n * 3600) / inject_Z w)%Q
   | _, _ => jnone
   end.
@@ -97,7 +97,8 @@ Definition run_battery (dir_exists : bool) (l : supply) (ac0 ac : kf bool) : jv 
           | Some (_, b) => if tte_unused b then JC "Val" [jopt jv_battery (spec_battery b ac0 ac)] else jnone
           end
         else jnone);
-       match chosen with Some (_, b) => secs_exact b | None => jnone end ].
+       match chosen with Some (_, b) => secs_exact b | None => jnone end;
+       jbool (match chosen with Some (_, b) => neg_power_matters b ac0 ac | None => false end) ].
 Definition run_battery_raw (listing : option (list (bytes * batfiles))) (ac0 ac : fres) : jv :=
   JL [ jv_outcome (jopt jv_battery) (sensors_battery true listing ac0 ac) ].
 
